@@ -202,9 +202,12 @@ func c06Scope(c *mon.Ctx, r *mon.Rand) {
 		kind = "cached"
 		crec = mon.NewCachedRec(true)
 		opts.CachedReporter = crec
+		// what the reporter says about its capabilities does not change what is sanitized
+		crec.Caps = mon.Caps(r.Bool(), r.Bool())
 	} else {
 		prec = mon.NewPlainRec(true)
 		opts.Reporter = prec
+		prec.Caps = mon.Caps(r.Bool(), r.Bool())
 	}
 	reacquire := r.Bool()
 	desc := map[string]interface{}{"root": rc, "program": prog, "cardinality_tags": cardTags, "reporter": kind, "close_and_derive_again": reacquire}
